@@ -21,6 +21,8 @@
    SCAN_NO_FINAL (scan_border without the final version check of the border; NOT distinguishable by the invariants while every
    border holds entries, because the per-entry re-validation subsumes it), SCAN_NO_ENTRY_CHECK (no re-validation per entry; together
    with SCAN_NO_FINAL = a scan without any re-validation: ScanOK fails).
+   SCAN_DUP (defect F17 of the pinned tree: a key whose border was emptied and unlinked and that is inserted again lands in the border
+   the scan is standing on and is returned a second time).
    Two other candidate switches turned out to be harmless for forward scans and were dropped (TLC finds no violation): starting a
    border from a fresh version instead of the handed-over one, and logging the next border's version after the final check (a
    forward scan reads the next pointer and the content after the version, so a later version only makes it see a later state).
@@ -31,7 +33,7 @@ CONSTANTS F, Keys, Threads,
           Prog,            \* [Threads -> [op : {"get", "put", "rem"}, k : Keys, v : value id]]
           Init1, Init2,    \* keys of B1 and B2 (every key of B1 below every key of B2; both non-empty)
           UNLOCK_BEFORE_PARENT, NO_INS_ON_INSERT, NO_INS_ON_DELETE,
-          SCAN_NO_FINAL, SCAN_NO_ENTRY_CHECK
+          SCAN_NO_FINAL, SCAN_NO_ENTRY_CHECK, SCAN_DUP
 ABSENT == 0
 NULL == 0
 NoSlot == 99
@@ -53,7 +55,9 @@ MkBorder(S, pv, nx) == LET n == Cardinality(S) sq == SeqOf(S) IN
 EmptyI == [ver |-> V0, n |-> 0, key |-> [i \in 0..(F-1) |-> 0], ch |-> [i \in 0..F |-> NULL], parent |-> NULL]
 L0 == [root |-> 4, cur |-> 4, pv |-> V0, ci |-> 0, child |-> 1, cv |-> V0, b |-> 1, vfb |-> V0, v |-> V0, idx |-> NoSlot, w |-> 0,
        prevn |-> NULL, pn |-> NULL, i |-> 0, sib |-> NULL, mv |-> 1, nb |-> NULL, insd |-> FALSE,
-       out |-> <<>>, nv |-> <<>>, snap |-> <<>>, si |-> 1, pushed |-> FALSE, iszo |-> 0, iszn |-> 0, nxt |-> NULL, nxv |-> V0]
+       out |-> <<>>, nv |-> <<>>, snap |-> <<>>, si |-> 1, pushed |-> FALSE, iszo |-> 0, iszn |-> 0, nxt |-> NULL, nxv |-> V0,
+       iph |-> "open", stb |-> 1, stlast |-> 0, strank |-> 1, stv |-> V0, stperm |-> <<>>, stroot |-> 4, perm |-> <<>>, ckv |-> V0, ckp |-> <<>>, kt |-> 0, cc |-> 1,
+       tov |-> V0, top |-> <<>>]
 Init == /\ bd = Force([n \in Borders |-> IF n = 1 THEN MkBorder(Init1, NULL, 2) ELSE IF n = 2 THEN MkBorder(Init2, 1, NULL) ELSE EmptyB])
         /\ it = Force([n \in Interiors |-> IF n = 4 THEN [EmptyI EXCEPT !.ver = [V0 EXCEPT !.root = TRUE, !.vi = 1], !.n = 1, !.key[0] = MinOf(Init2), !.ch[0] = 1, !.ch[1] = 2]
                                            ELSE EmptyI])
@@ -70,7 +74,7 @@ RemoveSlot(p, s) == SelectSeq(p, LAMBDA x : x # s)
 FreeSlot(p) == CHOOSE s \in Slots : (\A i \in 1..Len(p) : p[i] # s) /\ (\A s2 \in Slots : (\A i \in 1..Len(p) : p[i] # s2) => s <= s2)
 Goto(t, l) == pc' = [pc EXCEPT ![t] = l]
 Commit(k, b) == /\ abs' = [abs EXCEPT ![k] = b]
-                /\ seen' = Force([t \in Threads |-> IF InFlight(t) /\ (Op(t).op = "scan" \/ Op(t).k = k) THEN [seen[t] EXCEPT ![k] = @ \cup {b}] ELSE seen[t]])
+                /\ seen' = Force([t \in Threads |-> IF InFlight(t) /\ (Op(t).op \in {"scan", "iscan"} \/ Op(t).k = k) THEN [seen[t] EXCEPT ![k] = @ \cup {b}] ELSE seen[t]])
 Ret(t, r) == res' = [res EXCEPT ![t] = Append(@, [op |-> Op(t).op, k |-> Op(t).k, st |-> r[1], w |-> r[2], sn |-> seen[t], ins |-> loc[t].insd, nv |-> loc[t].nv])] /\ Goto(t, "done")
 VerOf(n) == IF n \in Interiors THEN it[n].ver ELSE bd[n].ver
 ParentOf(n) == IF n \in Interiors THEN it[n].parent ELSE bd[n].parent
@@ -80,22 +84,25 @@ Keep == F \div 2 + 1
 \* index of the child for key k in interior p (interior_node::get_child_of without the version protocol)
 ChildIdx(p, k) == IF \E i \in 0..(it[p].n - 1) : k < it[p].key[i] THEN CHOOSE i \in 0..(it[p].n - 1) : k < it[p].key[i] /\ \A j \in 0..(i - 1) : ~(k < it[p].key[j])
                   ELSE it[p].n
-AfterFB(t) == IF Op(t).op = "scan" THEN "s_enter" ELSE "lv1"
+AfterFB(t) == IF Op(t).op = "scan" THEN "s_enter" ELSE IF Op(t).op = "iscan" THEN (IF loc[t].iph = "open" THEN "io_lv1" ELSE "ir_arr") ELSE "lv1"
+\* the key find_border descends for: scans start at the leftmost border, a cursor that re-finds its position uses its last key
+DescKey(t) == IF Op(t).op = "scan" THEN 0 ELSE IF Op(t).op = "iscan" THEN loc[t].stlast ELSE Op(t).k
+IsScanOp(t) == Op(t).op \in {"scan", "iscan"}
 SameButLock(a, b) == [a EXCEPT !.lk = FALSE] = [b EXCEPT !.lk = FALSE]
 \* ---------------------------------------------------------------- common: invocation, root load, find_border, get_lv_of
-Start(t) == /\ pc[t] = "start" /\ seen' = [seen EXCEPT ![t] = [k \in Keys |-> IF Op(t).op = "scan" \/ k = Op(t).k THEN {abs[k]} ELSE {}]] /\ loc' = [loc EXCEPT ![t] = L0] /\ Goto(t, "g0")
+Start(t) == /\ pc[t] = "start" /\ seen' = [seen EXCEPT ![t] = [k \in Keys |-> IF Op(t).op \in {"scan", "iscan"} \/ k = Op(t).k THEN {abs[k]} ELSE {}]] /\ loc' = [loc EXCEPT ![t] = L0] /\ Goto(t, "g0")
             /\ UNCHANGED <<bd, it, rootp, rootlock, abs, res>>
 G0(t) == /\ pc[t] = "g0" /\ loc' = [loc EXCEPT ![t].root = rootp] /\ Goto(t, "fb")
          /\ UNCHANGED <<bd, it, rootp, rootlock, abs, seen, res>>
 FB(t) == /\ pc[t] = "fb" /\ Stable(VerOf(loc[t].root))
          /\ LET r == loc[t].root v == VerOf(r) IN
-            IF ~v.root THEN Goto(t, "g0") /\ UNCHANGED loc
+            IF ~v.root THEN Goto(t, IF Op(t).op = "iscan" /\ loc[t].iph = "retry" THEN "ir_root" ELSE "g0") /\ UNCHANGED loc
             ELSE IF r \in Interiors THEN loc' = [loc EXCEPT ![t].cur = r, ![t].pv = v] /\ Goto(t, "gc1")
             ELSE loc' = [loc EXCEPT ![t].b = r, ![t].vfb = v, ![t].iszo = 0, ![t].iszn = 0] /\ Goto(t, AfterFB(t))
          /\ UNCHANGED <<bd, it, rootp, rootlock, abs, seen, res>>
 GC1(t) == /\ pc[t] = "gc1"
           /\ LET p == loc[t].cur IN
-             IF SameButLock(it[p].ver, loc[t].pv) THEN loc' = [loc EXCEPT ![t].ci = ChildIdx(p, IF Op(t).op = "scan" THEN 0 ELSE Op(t).k)]
+             IF SameButLock(it[p].ver, loc[t].pv) THEN loc' = [loc EXCEPT ![t].ci = ChildIdx(p, DescKey(t))]
              ELSE \E c \in 0..F : loc' = [loc EXCEPT ![t].ci = c]
           /\ Goto(t, "gc2") /\ UNCHANGED <<bd, it, rootp, rootlock, abs, seen, res>>
 GC2(t) == /\ pc[t] = "gc2" /\ LET c == it[loc[t].cur].ch[loc[t].ci] IN
@@ -374,6 +381,9 @@ SChk(t) == /\ pc[t] = "s_chk" /\ Stable(bd[loc[t].b].ver)
                  IF ver.vs # l.vfb.vs \/ ver.del THEN loc' = [loc EXCEPT ![t].out = <<>>, ![t].nv = <<>>] /\ Goto(t, "g0")
                  ELSE loc' = [loc EXCEPT ![t].vfb = ver, ![t].out = Cut(l.out, l.iszo), ![t].nv = Cut(l.nv, l.iszn)] /\ Goto(t, "s_next")
               ELSE IF l.w = 0 THEN loc' = [loc EXCEPT ![t].out = Cut(l.out, l.iszo), ![t].nv = Cut(l.nv, l.iszn)] /\ Goto(t, "s_next")
+              ELSE IF ~SCAN_DUP /\ l.iszo # 0 /\ ~(l.out[l.iszo][1] < bd[l.b].ks[l.idx])
+                   THEN \* already produced from a border further left (that border was unlinked, the key inserted again): skipped (repair of F17)
+                        loc' = [loc EXCEPT ![t].si = l.si + 1] /\ Goto(t, IF l.si = Len(l.snap) THEN "s_rec" ELSE "s_val")
               ELSE /\ loc' = [loc EXCEPT ![t].out = Append(l.out, <<bd[l.b].ks[l.idx], l.w>>), ![t].si = l.si + 1, ![t].pushed = TRUE,
                                          ![t].nv = IF l.pushed THEN l.nv ELSE Append(l.nv, <<l.vfb, l.b>>)]
                    /\ Goto(t, IF l.si = Len(l.snap) THEN "s_rec" ELSE "s_val")
@@ -392,7 +402,88 @@ SFin(t) == /\ pc[t] = "s_fin" /\ Stable(bd[loc[t].b].ver)
               ELSE IF l.nxt = NULL THEN Goto(t, "s_ret") /\ UNCHANGED loc
               ELSE loc' = [loc EXCEPT ![t].b = l.nxt, ![t].vfb = l.nxv] /\ Goto(t, "s_enter")
            /\ UNCHANGED <<bd, it, rootp, rootlock, abs, seen, res>>
-Step(t) == SEnter(t) \/ SRet(t) \/ SNext(t) \/ SPermS(t) \/ SVal(t) \/ SChk(t) \/ SRec(t) \/ SNv(t) \/ SFin(t) \/ Start(t) \/ G0(t) \/ FB(t) \/ GC1(t) \/ GC2(t) \/ GC3(t) \/ GC4(t) \/ LV1(t) \/ PermLd(t) \/ LV2(t) \/ GVal(t) \/ GFc(t)
+\* ---------------------------------------------------------------- cursor: iscan_open(-inf, +inf) + iscan_next until the end (interface_iscan.h,
+\* forward, layer 0, every entry consumed).  The context keeps (border, last key, rank, version, permutation, layer root) between the calls.
+U9 == <<bd, it, rootp, rootlock, abs, seen, res>>
+\* iscan_findfirst, start key "" (absent): get_lv_of on the leftmost border, then the stack element
+IOLv1(t) == /\ pc[t] = "io_lv1" /\ LET l == loc[t] IN
+               IF l.vfb.del /\ l.vfb.root THEN loc' = [loc EXCEPT ![t].nv = <<<<l.vfb, l.b>>>>] /\ Goto(t, "i_ret")           \* empty tree: the root border is reported
+               ELSE Stable(bd[l.b].ver) /\ loc' = [loc EXCEPT ![t].v = bd[l.b].ver] /\ Goto(t, "io_p")
+            /\ UNCHANGED U9
+IOP(t) == /\ pc[t] = "io_p" /\ Goto(t, "io_lv2") /\ UNCHANGED <<loc, bd, it, rootp, rootlock, abs, seen, res>>
+IOLv2(t) == /\ pc[t] = "io_lv2" /\ Stable(bd[loc[t].b].ver)
+            /\ LET l == loc[t] v == bd[l.b].ver IN
+               IF v # l.v THEN loc' = [loc EXCEPT ![t].v = v] /\ Goto(t, "io_p")
+               ELSE IF v.vs # l.vfb.vs \/ (v.del /\ ~v.root) THEN Goto(t, "g0") /\ UNCHANGED loc
+               ELSE Goto(t, "io_stack") /\ UNCHANGED loc
+            /\ UNCHANGED U9
+IOStack(t) == /\ pc[t] = "io_stack"
+              /\ loc' = [loc EXCEPT ![t].stb = loc[t].b, ![t].stlast = 0, ![t].strank = 1, ![t].stv = loc[t].vfb, ![t].stperm = bd[loc[t].b].perm, ![t].stroot = loc[t].root, ![t].iph = "retry"]
+              /\ Goto(t, "in_top") /\ UNCHANGED U9
+\* iscan_findnext entry: the locals are reloaded from the context
+INTop(t) == /\ pc[t] = "in_top" /\ loc' = [loc EXCEPT ![t].b = loc[t].stb, ![t].vfb = loc[t].stv, ![t].perm = loc[t].stperm] /\ Goto(t, "in_next") /\ UNCHANGED U9
+INNext(t) == /\ pc[t] = "in_next" /\ loc' = [loc EXCEPT ![t].nxt = bd[loc[t].b].next] /\ Goto(t, "in_ent") /\ UNCHANGED U9
+INEnt(t) == /\ pc[t] = "in_ent" /\ LET l == loc[t] IN
+               IF l.strank > Len(l.perm) THEN Goto(t, "in_nb1") /\ UNCHANGED loc
+               ELSE loc' = [loc EXCEPT ![t].idx = l.perm[l.strank], ![t].kt = bd[l.b].ks[l.perm[l.strank]], ![t].w = bd[l.b].lv[l.perm[l.strank]], ![t].cc = 1] /\ Goto(t, "ck1")
+            /\ UNCHANGED U9
+\* iscan_check_retry: stable version, permutation, stable version again (once: a changed version is adopted with a fresh permutation)
+CK1(t) == /\ pc[t] = "ck1" /\ Stable(bd[loc[t].b].ver) /\ loc' = [loc EXCEPT ![t].ckv = bd[loc[t].b].ver] /\ Goto(t, "ck2") /\ UNCHANGED U9
+CK2(t) == /\ pc[t] = "ck2" /\ loc' = [loc EXCEPT ![t].ckp = bd[loc[t].b].perm] /\ Goto(t, "ck3") /\ UNCHANGED U9
+\* outcome of the check, by the site it was called from (cc): 1 entry loaded, 2 before the entry is returned, 3 before the move to the
+\* neighbour, 4 inside retry_after_fb
+CkDone(t, l) ==
+   IF l.ckv # l.vfb \/ l.ckp # l.perm THEN
+      (IF l.ckv.vs # l.vfb.vs \/ l.ckv.del \/ l.cc = 4 THEN loc' = [loc EXCEPT ![t] = l] /\ Goto(t, "ir_root")
+       ELSE loc' = [loc EXCEPT ![t] = [l EXCEPT !.vfb = l.ckv, !.perm = l.ckp]] /\ Goto(t, "ir_fb"))
+   ELSE IF l.cc = 1 THEN (IF l.stlast < l.kt THEN loc' = [loc EXCEPT ![t] = [l EXCEPT !.cc = 2]] /\ Goto(t, "ck1")
+                          ELSE loc' = [loc EXCEPT ![t] = [l EXCEPT !.strank = l.strank + 1]] /\ Goto(t, "in_ent"))
+   ELSE IF l.cc = 2 THEN loc' = [loc EXCEPT ![t] = [l EXCEPT !.nv = Append(l.nv, <<l.vfb, l.b>>), !.out = Append(l.out, <<l.kt, l.w>>), !.stb = l.b, !.stlast = l.kt, !.strank = l.strank + 1]]
+                         /\ Goto(t, "in_top")
+   ELSE IF l.cc = 3 THEN
+        (IF l.nxt = NULL THEN loc' = [loc EXCEPT ![t] = [l EXCEPT !.nv = Append(l.nv, <<l.vfb, l.b>>)]] /\ Goto(t, "i_ret")
+         ELSE IF bd[l.nxt].prev # l.b THEN loc' = [loc EXCEPT ![t] = [l EXCEPT !.nv = Append(l.nv, <<l.vfb, l.b>>)]] /\ Goto(t, "ir_root")
+         ELSE loc' = [loc EXCEPT ![t] = [l EXCEPT !.nv = Append(l.nv, <<l.vfb, l.b>>), !.b = l.nxt, !.vfb = l.tov, !.perm = l.top,
+                                                 !.stb = l.nxt, !.strank = 1, !.stv = l.tov, !.stperm = l.top]] /\ Goto(t, "in_next"))
+   ELSE loc' = [loc EXCEPT ![t] = [l EXCEPT !.strank = 1, !.stperm = l.perm]] /\ Goto(t, "in_next")
+CK3(t) == /\ pc[t] = "ck3" /\ Stable(bd[loc[t].b].ver)
+          /\ IF bd[loc[t].b].ver # loc[t].ckv THEN loc' = [loc EXCEPT ![t].ckv = bd[loc[t].b].ver] /\ Goto(t, "ck4")
+             ELSE CkDone(t, loc[t])
+          /\ UNCHANGED U9
+CK4(t) == /\ pc[t] = "ck4" /\ CkDone(t, [loc[t] EXCEPT !.ckp = bd[loc[t].b].perm]) /\ UNCHANGED U9
+\* end of the border: move to the neighbour (its version and permutation are logged before the final check of this border)
+INNb1(t) == /\ pc[t] = "in_nb1" /\ LET l == loc[t] IN
+               IF bd[l.b].next # l.nxt THEN Goto(t, "ir_root") /\ UNCHANGED loc
+               ELSE IF l.nxt = NULL THEN loc' = [loc EXCEPT ![t].cc = 3] /\ Goto(t, "ck1")
+               ELSE Goto(t, "in_nb2") /\ UNCHANGED loc
+            /\ UNCHANGED U9
+INNb2(t) == /\ pc[t] = "in_nb2" /\ Stable(bd[loc[t].nxt].ver)
+            /\ IF bd[loc[t].nxt].ver.del THEN Goto(t, "ir_root") /\ UNCHANGED loc
+               ELSE loc' = [loc EXCEPT ![t].tov = bd[loc[t].nxt].ver] /\ Goto(t, "in_nb3")
+            /\ UNCHANGED U9
+INNb3(t) == /\ pc[t] = "in_nb3" /\ loc' = [loc EXCEPT ![t].top = bd[loc[t].nxt].perm, ![t].cc = 3] /\ Goto(t, "ck1") /\ UNCHANGED U9
+\* retry_after_fb: the border changed without a split: start it again from rank 0 unless its smallest key is already behind the cursor
+IRFb(t) == /\ pc[t] = "ir_fb" /\ LET l == loc[t] IN
+              IF Len(l.perm) = 0 THEN Goto(t, "ir_root") /\ UNCHANGED loc
+              ELSE IF bd[l.b].ks[l.perm[1]] > l.stlast THEN Goto(t, "ir_root") /\ UNCHANGED loc
+              ELSE loc' = [loc EXCEPT ![t].cc = 4] /\ Goto(t, "ck1")
+           /\ UNCHANGED U9
+\* retry_from_root: find the border of the last key again from the saved layer root (layer 0: the tree root is reloaded when the saved one
+\* is deleted or no longer root; a deleted tree root that is still the root ends the scan)
+IRRoot(t) == /\ pc[t] = "ir_root" /\ Stable(VerOf(loc[t].stroot))
+             /\ LET l == loc[t] r == l.stroot rv == VerOf(r) IN
+                IF rv.del THEN (IF r # rootp THEN loc' = [loc EXCEPT ![t].stroot = rootp] /\ UNCHANGED pc ELSE Goto(t, "i_ret") /\ UNCHANGED loc)
+                ELSE IF ~rv.root THEN loc' = [loc EXCEPT ![t].stroot = rootp] /\ UNCHANGED pc
+                ELSE IF r \in Interiors THEN loc' = [loc EXCEPT ![t].root = r, ![t].cur = r, ![t].pv = rv] /\ Goto(t, "gc1")
+                ELSE loc' = [loc EXCEPT ![t].root = r, ![t].b = r, ![t].vfb = rv] /\ Goto(t, "ir_arr")
+             /\ UNCHANGED U9
+IRArr(t) == /\ pc[t] = "ir_arr"
+            /\ loc' = [loc EXCEPT ![t].stb = loc[t].b, ![t].strank = 1, ![t].stperm = bd[loc[t].b].perm, ![t].stv = loc[t].vfb, ![t].perm = bd[loc[t].b].perm]
+            /\ Goto(t, "in_next") /\ UNCHANGED U9
+IRet(t) == /\ pc[t] = "i_ret" /\ Ret(t, <<"OK", loc[t].out>>) /\ UNCHANGED <<bd, it, rootp, rootlock, loc, abs, seen>>
+IStep(t) == IOLv1(t) \/ IOP(t) \/ IOLv2(t) \/ IOStack(t) \/ INTop(t) \/ INNext(t) \/ INEnt(t) \/ CK1(t) \/ CK2(t) \/ CK3(t) \/ CK4(t)
+            \/ INNb1(t) \/ INNb2(t) \/ INNb3(t) \/ IRFb(t) \/ IRRoot(t) \/ IRArr(t) \/ IRet(t)
+Step(t) == IStep(t) \/ SEnter(t) \/ SRet(t) \/ SNext(t) \/ SPermS(t) \/ SVal(t) \/ SChk(t) \/ SRec(t) \/ SNv(t) \/ SFin(t) \/ Start(t) \/ G0(t) \/ FB(t) \/ GC1(t) \/ GC2(t) \/ GC3(t) \/ GC4(t) \/ LV1(t) \/ PermLd(t) \/ LV2(t) \/ GVal(t) \/ GFc(t)
            \/ RFc0(t) \/ Lock(t) \/ Chk(t) \/ PUndel(t) \/ PSlot(t) \/ PPub(t) \/ PSet(t) \/ PUnlock(t)
            \/ S1(t) \/ S3a(t) \/ S3(t) \/ S3b(t) \/ SMove(t) \/ SPerm(t) \/ S6(t) \/ S7a(t) \/ S7b(t) \/ U1(t) \/ U2(t)
            \/ LpLd(t) \/ SRl(t) \/ SRl2(t) \/ LpL(t) \/ LpC(t) \/ N1a(t) \/ N1b(t) \/ N1c(t) \/ N2(t) \/ N3(t) \/ N4(t) \/ N5(t) \/ N6(t)
@@ -418,10 +509,10 @@ ScanResOK(r) == LET out == r.w IN
                 /\ \A i \in 1..(Len(out) - 1) : out[i][1] < out[i + 1][1]
                 /\ \A i \in 1..Len(out) : out[i][2] # 0 /\ out[i][2] \in r.sn[out[i][1]]
                 /\ \A k \in Keys : k \notin OutKeys(out) => ABSENT \in r.sn[k]
-ScanOK == \A t \in Threads : \A i \in 1..Len(res[t]) : res[t][i].op = "scan" => ScanResOK(res[t][i])
+ScanOK == \A t \in Threads : \A i \in 1..Len(res[t]) : res[t][i].op \in {"scan", "iscan"} => ScanResOK(res[t][i])
 \* C05 / C06: the collected set is never empty, and once everything has completed every insert of a new key is either in the
 \* scan's result or has left a collected (version, node) pair stale
-NvOK == AllDone => \A t \in Threads : \A i \in 1..Len(res[t]) : res[t][i].op = "scan" =>
+NvOK == AllDone => \A t \in Threads : \A i \in 1..Len(res[t]) : res[t][i].op \in {"scan", "iscan"} =>
            LET r == res[t][i] IN
            /\ Len(r.nv) >= 1
            /\ \A t2 \in Threads : \A j \in 1..Len(res[t2]) : (res[t2][j].op = "put" /\ res[t2][j].ins) =>
